@@ -272,6 +272,9 @@ type Cluster struct {
 	// CutSilent: after the bytes of a "cut-exact" fault the broker neither
 	// closes nor sends anything more on the connection
 	CutSilent bool
+	// MetaOrder: order in which metadata responses list a topic's partitions
+	// (see listed)
+	MetaOrder int
 	// MutateFrame post-processes the encoded response frame (framing faults)
 	MutateFrame func(r *Req, frame []byte) []byte
 	// TruncateAtMaxBytes: a partition's record set is cut at partition_max_bytes
@@ -747,9 +750,37 @@ func (c *Cluster) apiVersions(b *Broker, r *Req) rc.Msg {
 	return rc.Msg{"error_code": int16(0), "api_keys": keys, "throttle_time_ms": int32(0)}
 }
 
+// listed returns the topic's partitions in the order the brokers list them in
+// metadata responses (Kafka promises no order): MetaOrder 0 ascending,
+// 1 descending, 2 rotated by one, 3 odd ids before even ids.
+func (c *Cluster) listed(t *Topic) []*Partition {
+	ps := append([]*Partition(nil), t.Parts...)
+	switch c.MetaOrder {
+	case 1:
+		for i, j := 0, len(ps)-1; i < j; i, j = i+1, j-1 {
+			ps[i], ps[j] = ps[j], ps[i]
+		}
+	case 2:
+		if len(ps) > 1 {
+			ps = append(ps[1:], ps[0])
+		}
+	case 3:
+		var odd, even []*Partition
+		for _, p := range ps {
+			if p.ID%2 == 1 {
+				odd = append(odd, p)
+			} else {
+				even = append(even, p)
+			}
+		}
+		ps = append(odd, even...)
+	}
+	return ps
+}
+
 func (c *Cluster) metadataTopic(t *Topic) rc.Msg {
 	var parts []rc.Msg
-	for _, p := range t.Parts {
+	for _, p := range c.listed(t) {
 		parts = append(parts, rc.Msg{
 			"error_code": p.Err, "partition_index": p.ID, "leader_id": p.Leader, "leader_epoch": p.Epoch,
 			"replica_nodes": i32s(p.Replicas), "isr_nodes": i32s(p.ISR), "offline_replicas": i32s(p.Offline),
